@@ -211,4 +211,16 @@ example : ¬ IllFormed exOk := by
   rw [he] at hok
   cases hok
 
+
+/-- the hypotheses of `C09_accept` / `C09_exit4_iff` are satisfiable: the diamond builds under the schedule 0,1,2,3 -/
+example : (build (fun _ _ _ _ => 0) exOk {} ⟨[(90, 1), (91, 1), (10, 5)], []⟩ [0, 1, 2, 3]).toOption.map
+    (fun r => (r.exit, r.log, r.complete)) = some (0, [0, 1, 2, 3], true) := by decide
+
+/-- … and so is the hypothesis of `C09_reject_code` with a non-empty schedule offered: nothing of it is run -/
+example : (build (fun _ _ _ _ => 0) exAfterCyc {} ⟨[(90, 1)], []⟩ [0, 1]).toOption.map
+    (fun r => (r.exit, r.log, r.reports.length)) = some (4, [], 0) := by decide
+
+/-- the graphs `create_dag` builds satisfy the side condition of `C09_hasCycle_false_iff_hasRank` -/
+example : WF (finalGraph exOk) ∧ WF (baseGraph exCyc) := ⟨finalGraph_wf _, baseGraph_wf _⟩
+
 end Pytask
